@@ -1,14 +1,20 @@
 P = {
     "gens": ["C14idkeeper"],
-    "theorems": ["C14_distinct", "C14_distinct_clocked", "C14_restart_refuted", "C14_same_number", "C14_filed",
-                 "C14_ids_distinct"],
+    "theorems": ["C14_distinct", "C14_distinct_clocked", "C14_distinct_ahead", "C14_clean_threshold",
+                 "C14_restart_refuted", "C14_same_number", "C14_filed", "C14_ids_distinct"],
     "rule": "scenarios on a real routing.Core (epidemic, mock CLAs): fixed boundary scenarios (three submissions in one "
             "millisecond / with the zero creation time, through SendBundle and through the AgentManager channel, "
             "with and without a connected peer; status reports of receptions right after each other; the cleaning "
             "window: 60 s / 120 s / 30 min old creation times; restart with clock and with zero time; concurrent "
             "groups of 2-4 goroutines, SendBundle only and mixed with the agent path) plus random scenarios of "
             "3-10 operations (submission, concurrent group of 2-4, peer up/down, retry tick, IdKeeper cleaning, "
-            "restart) over 4 sources (node, two agent endpoints, dtn:none) and 7 kinds of creation time; "
+            "restart) over 4 sources (node, two agent endpoints, dtn:none) and 14 kinds of creation time (zero, the "
+            "scenario's millisecond, the clock, 1 ms / 2 s / 1 h / 1 day / 1 year AHEAD of the node's clock, 60 s ... 1 year "
+            "behind it); bundles of one (source, time) differ in everything else (variant: report-to endpoint incl. "
+            "dtn:none and local endpoints, destination, lifetime, control flags, hop-count / unknown extension block, "
+            "payload length, CRC type) - fixed scenarios per dimension and random variants; boundary probe of the "
+            "cleaning threshold: IdKeeper.clean called back to back across ts+86400 ms, calls whose clock reading is "
+            "the same before and after are replayed at that clock (kept at exactly 86400 ms, dropped at 86401); "
             "distinct = distinct case bodies (timestamps make every run's bodies distinct)",
     "assumptions": [
         "C14_distinct: the IdKeeper's entry of (source, time) is not forgotten between the two submissions: no restart, "
